@@ -300,8 +300,8 @@ class Run:
             for r in rows:
                 self.hist(f"{name}:op:{r[0].split(' ')[0]}")
                 self.hist(f"{name}:impl:{'err' if r[1] == 'err' else 'panic' if r[1] in ('panic', 'abort') else 'ok'}")
-            bad_spec = next((i for i, r in enumerate(rows) if r[3] != "n/a" and r[1] != r[3]), None)
-            bad_model = next((i for i, r in enumerate(rows) if r[1] != r[2]), None)
+            bad_spec = next((i for i, r in enumerate(rows) if "n/a" not in (r[1], r[3]) and r[1] != r[3]), None)
+            bad_model = next((i for i, r in enumerate(rows) if r[1] != "n/a" and r[1] != r[2]), None)
             if bad_spec is not None:
                 fid = classify(seq, bad_spec, rows[bad_spec][1], rows[bad_spec][3]) if classify else None
                 if fid:
@@ -332,7 +332,7 @@ class Run:
             impl = [canon(x) for x in impl]
         specl = run_lean("spec", seq)
         for i, (a, b) in enumerate(zip(impl, specl)):
-            if b != "n/a" and a != b:
+            if "n/a" not in (a, b) and a != b:
                 if classify and classify(seq, i, a, b):
                     return None
                 return i
@@ -490,7 +490,7 @@ def replay(path):
     specl = run_lean("spec", ops)
     bad = False
     for l, a, b in zip(ops, impl, specl):
-        mark = "  " if (a == b or b == "n/a") else "!!"
+        mark = "  " if (a == b or "n/a" in (a, b)) else "!!"
         bad |= mark == "!!"
         print(f"{mark} {l}\n     impl: {a}\n     spec: {b}")
     print(f"replay of {pid}: {'property fails on this input' if bad else 'no difference (not reproduced)'}")
